@@ -261,6 +261,8 @@ pub enum EvK {
     MutexPoisoned,
     /// the clock had to jump (nothing runnable) while the stdin loop was blocked on a lock or a join
     Stall { why: String, jump_ns: u64 },
+    /// a search completed a node while its stop flag was already down and it had not looked at it for `stores` nodes
+    LateNode { flag: usize, stores: u32 },
     Note { text: String },
 }
 
@@ -297,6 +299,7 @@ pub struct Th {
     pub parent_cmd: u32,
     pub saw_false_at: Option<u64>,
     pub loads_after_false: u64,
+    pub late_nodes: u64,
     pub outs_after_false: u64,
     pub exited_at_seq: Option<u64>,
     pub panicked: bool,
@@ -311,6 +314,8 @@ pub struct ThInfo {
     pub parent_cmd: u32,
     pub saw_false_at: Option<u64>,
     pub loads_after_false: u64,
+    /// nodes completed while the stop was down and unobserved (beyond the unpolled-node grace)
+    pub late_nodes: u64,
     pub outs_after_false: u64,
     pub exited: bool,
     pub panicked: bool,
@@ -374,7 +379,17 @@ thread_local! {
     static LAST_PANIC: std::cell::RefCell<Option<(String, String)>> = const { std::cell::RefCell::new(None) };
     static CTX_W: Cell<*const World> = const { Cell::new(std::ptr::null()) };
     static CTX_ME: Cell<usize> = const { Cell::new(usize::MAX) };
+    /// table stores (= completed interior nodes) made by this thread since its last look at its stop flag
+    static STORES_SINCE_POLL: Cell<u32> = const { Cell::new(0) };
+    /// the flag this thread polled last (id, address); only dereferenced while the search that polled it runs
+    static LAST_FLAG: Cell<(usize, usize)> = const { Cell::new((0, 0)) };
 }
+
+/// A search that completes more than this many interior nodes without looking at its stop flag is charged for the
+/// further ones as if each were a poll (simulated time, scheduling point, poll budget, stop-arrival instant). The shipped
+/// search polls on entry to every interior node; between two polls it completes at most one node per ply of the
+/// unwinding recursion (<= 64), so nothing changes for it.
+pub const UNPOLLED_GRACE: u32 = 128;
 
 pub fn in_sim() -> bool {
     CTX_W.with(|c| !c.get().is_null())
@@ -462,6 +477,7 @@ impl Inner {
             parent_cmd,
             saw_false_at: None,
             loads_after_false: 0,
+            late_nodes: 0,
             outs_after_false: 0,
             exited_at_seq: None,
             panicked: false,
@@ -719,6 +735,8 @@ pub fn flag_load(id: usize, v: &std::sync::atomic::AtomicBool) -> bool {
     let mut g = w.m.lock().unwrap();
     let is_poll = if me == 0 { g.params.search_on_main } else { g.th[me].role != Role::Gui };
     if is_poll {
+        STORES_SINCE_POLL.with(|c| c.set(0));
+        LAST_FLAG.with(|c| c.set((id, v as *const std::sync::atomic::AtomicBool as usize)));
         if g.th[me].polls == 0 && me != 0 {
             g.ev(me, EvK::FirstLoad { flag: id });
         }
@@ -751,6 +769,58 @@ pub fn flag_load(id: usize, v: &std::sync::atomic::AtomicBool) -> bool {
         }
     }
     val
+}
+
+/// Called by the table shim on every `insert`/`entry` (the search stores a node when it has completed it).
+pub fn table_store() {
+    if !in_sim() {
+        return;
+    }
+    let n = STORES_SINCE_POLL.with(|c| {
+        let n = c.get().saturating_add(1);
+        c.set(n);
+        n
+    });
+    if n <= UNPOLLED_GRACE {
+        return;
+    }
+    let (id, addr) = LAST_FLAG.with(|c| c.get());
+    if addr == 0 {
+        return;
+    }
+    let w = world();
+    let me = me();
+    let mut g = w.m.lock().unwrap();
+    let is_search = if me == 0 { g.params.search_on_main } else { g.th[me].role != Role::Gui };
+    if !is_search {
+        return;
+    }
+    // SAFETY: `addr` was recorded by this thread's last poll of the search it is still inside of (reset at item begin)
+    let v: &std::sync::atomic::AtomicBool = unsafe { &*(addr as *const std::sync::atomic::AtomicBool) };
+    if n == UNPOLLED_GRACE + 1 {
+        g.bump("search ran past the unpolled-node grace");
+    }
+    if g.flip_at == Some(g.item_polls) {
+        v.store(false, std::sync::atomic::Ordering::SeqCst);
+        g.bump("stop flag flipped at chosen poll");
+        g.ev(me, EvK::Store { flag: id, val: false });
+    }
+    g.total_polls += 1;
+    g.item_polls += 1;
+    g.now += g.params.node_cost;
+    g.wake_sleepers();
+    if g.poll_mark != u64::MAX && g.total_polls >= g.poll_mark {
+        g.poll_mark = u64::MAX;
+        g.wake_where(|s| matches!(s, St::GuiPolls(_)));
+    }
+    w.switch(g, me, Pt::FlagLoad, true);
+    if !v.load(std::sync::atomic::Ordering::SeqCst) {
+        let mut g = w.m.lock().unwrap();
+        if g.th[me].late_nodes == 0 {
+            g.ev(me, EvK::LateNode { flag: id, stores: n });
+        }
+        g.th[me].late_nodes += 1;
+    }
 }
 
 pub fn flag_store(id: usize, v: &std::sync::atomic::AtomicBool, val: bool) {
@@ -1125,8 +1195,11 @@ pub fn item_begin(flip_at: Option<u64>) {
         i.th[0].polls = 0;
         i.th[0].saw_false_at = None;
         i.th[0].loads_after_false = 0;
+        i.th[0].late_nodes = 0;
         i.th[0].outs_after_false = 0;
     });
+    STORES_SINCE_POLL.with(|c| c.set(0));
+    LAST_FLAG.with(|c| c.set((0, 0)));
 }
 pub fn item_info_marks() -> Vec<u64> {
     with(|i, _| i.item_marks.clone())
@@ -1210,6 +1283,7 @@ pub fn render_event(e: &Ev, names: &[ThInfo]) -> String {
         EvK::JoinDone { child, ok } => format!("joined t{} -> {}", child, if *ok { "Ok" } else { "Err(panic)" }),
         EvK::MutexPoisoned => "lock() returned PoisonError".into(),
         EvK::Stall { why, jump_ns } => format!("STALL: blocked on {} while nothing can run; clock jumps {} ns to the next timer", why, jump_ns),
+        EvK::LateNode { flag, stores } => format!("LATE NODE: flag{} is down, not looked at for {} completed nodes", flag, stores),
         EvK::Note { text } => format!("# {}", text),
     };
     format!("{:>6} {:>12}ns p{:<7} {:<8} {}", e.seq, e.t, e.tp, n, body)
@@ -1337,6 +1411,7 @@ where
             parent_cmd: t.parent_cmd,
             saw_false_at: t.saw_false_at,
             loads_after_false: t.loads_after_false,
+            late_nodes: t.late_nodes,
             outs_after_false: t.outs_after_false,
             exited: t.exited_at_seq.is_some(),
             panicked: t.panicked,
